@@ -53,6 +53,12 @@ def gen_case(rng: random.Random, tier: str) -> dict:
                 terms.append({"scale": None, "scale_pos": 0, "factors": ["ctx0"]})
     icpt = rng.random() < 0.7
     mat = rng.choice(["pandas", "pandas", "narwhals"])
+    # whole-number columns held in a (small) integer dtype: the same numbers, so the same products
+    for _nm, c in frame["cols"]:
+        if c["kind"] == "num" and all(float(v).is_integer() for v in c["values"]) and rng.random() < 0.7:
+            c["dtype"] = rng.choice(["int8", "int16", "int32", "int64", "uint8"])
+            lo, hi = (0, 200) if c["dtype"] == "uint8" else (-100, 100)
+            c["values"] = [float(rng.randint(lo, hi)) for _ in c["values"]]
     na = "drop"
     if rng.random() < 0.25:  # missing values kept in the matrix: every product involving one is itself missing
         na = "ignore"
@@ -91,6 +97,39 @@ def expected_subcolumn(part: str, case: dict, cache: dict) -> tuple[np.ndarray, 
     raise KeyError(part)
 
 
+SMALL_INTS = ("int8", "int16", "int32", "uint8")
+
+
+def small_int_product(case, subs, scale, observed) -> bool:
+    """True iff the observed column is what multiplying the factors (and the literal scale) in the columns' own fixed-width
+    integer dtype gives (finding K9)."""
+    dts = [c.get("dtype") for _n, c in case["frame"]["cols"] if c["kind"] == "num" and c.get("dtype") in SMALL_INTS]
+    if not dts:
+        return False
+    try:
+        with np.errstate(all="ignore"):
+            for dt in dict.fromkeys(dts):
+                vals = []
+                for v, key in subs:
+                    fa = case["factors"][key]
+                    nat = gen.eval_num_label(fa["label"], case["frame"], case.get("ctx"), native=True) if fa["kind"] == "num" else v.astype(dt)
+                    vals.append(nat)
+                for seq in (vals, vals[::-1]):
+                    prod = seq[0]
+                    for v in seq[1:]:
+                        prod = np.multiply(prod, v)
+                    for sc in ((scale, int(scale)) if float(scale).is_integer() else (scale,)):
+                        try:
+                            got = np.asarray(sc * prod, float) if isinstance(sc, float) else np.asarray(np.multiply(prod, np.asarray(sc).astype(prod.dtype) if np.asarray(prod).dtype.kind in "iu" else sc), float)
+                        except Exception:  # noqa: BLE001
+                            continue
+                        if np.allclose(got, observed, equal_nan=True):
+                            return True
+    except Exception:  # noqa: BLE001
+        return False
+    return False
+
+
 def judge(case: dict) -> Outcome:
     from formulaic import model_matrix
 
@@ -107,6 +146,9 @@ def judge(case: dict) -> Outcome:
             mm = model_matrix(case["formula"], df, ensure_full_rank=case["efr"], output=case["output"],
                               materializer=case["mat"], context=ctx, na_action=case.get("na", "drop"))
     except Exception as e:
+        if "out of bounds for" in str(e) and any(c.get("dtype") in SMALL_INTS for _n, c in case["frame"]["cols"]):
+            out.fail("c02.small_integer_product_wraps", f"{case['formula']!r}: scaling a small-integer column by a literal raised {type(e).__name__}: {str(e)[:120]}")
+            return out
         out.fail("c02.materialization_raised", f"{case['formula']!r}: {type(e).__name__}: {str(e)[:200]}")
         return out
     try:
@@ -149,6 +191,9 @@ def judge(case: dict) -> Outcome:
                 return out
             exp = scale * np.prod([v for v, _ in subs], axis=0)
         tol = 1e-9 * max(1.0, float(np.nanmax(np.abs(exp))) if n else 1.0)
+        if not np.allclose(M[:, j], exp, rtol=1e-9, atol=tol, equal_nan=True) and name != "Intercept" and small_int_product(case, subs, scale, M[:, j]):
+            out.fail("c02.small_integer_product_wraps", f"{case['formula']!r} out={case['output']} mat={case['mat']}: column {name!r} = {M[:4, j]} is the product taken in the columns' own integer width; the numbers' product is {exp[:4]}")
+            continue
         if not np.allclose(M[:, j], exp, rtol=1e-9, atol=tol, equal_nan=True):
             out.fail("c02.column_value", f"{case['formula']!r} efr={case['efr']} out={case['output']} mat={case['mat']}: column {name!r} = {M[:4, j]} expected {exp[:4]}")
             return out
